@@ -111,7 +111,104 @@ def obj_uses(fn, receiver='self._obj'):
     return attrs, calls
 
 
+def has_builtin_bool_shape(fn):
+    """(tuple node of the names, the returned comparison, classes-in-the-outer-loop?)"""
+    def tie(why):
+        return TieBroken('access.py: _has_builtin_bool shape changed (%s)' % why, u(fn))
+    body = code_body(fn)
+    if len(body) < 2 or u(body[-1]) != 'return True':
+        raise tie('does not end in `return True`')
+    loops = [n for n in body[:-1] if isinstance(n, ast.For)]
+    if len(loops) != 1 or any(not isinstance(n, (ast.For, ast.Assign)) for n in body[:-1]) or loops[0].orelse:
+        raise tie('not one loop')
+    outer = loops[0]
+    if isinstance(outer.iter, ast.Tuple):
+        # names in the outer loop: only this exact body
+        ok = len(body) == 2 and u(outer.target) == 'name' and len(outer.body) == 2 \
+            and u(outer.body[0]) == 'method = lookup_special_method_static(obj, name, _sentinel)' \
+            and isinstance(outer.body[1], ast.If) and u(outer.body[1].test) == 'method is not _sentinel' \
+            and len(outer.body[1].body) == 1 and isinstance(outer.body[1].body[0], ast.Return) \
+            and not outer.body[1].orelse
+        if not ok:
+            raise tie('names-outer loop body')
+        ret = outer.body[1].body[0].value
+        if not (isinstance(ret, ast.Compare) and u(ret.left) == 'type(method)'):
+            raise TieBroken('access.py: _has_builtin_bool does not decide by type(method)', u(ret))
+        return outer.iter, ret, False
+    # classes in the outer loop
+    it = u(outer.iter)
+    if not isinstance(outer.target, ast.Name) or it not in ('_static_getmro(type(obj))', 'type(obj).__mro__',
+                                                            'type.mro(type(obj))'):
+        raise tie('outer loop is neither over the names nor over the MRO of type(obj)')
+    klass = outer.target.id
+    inner = [n for n in outer.body if isinstance(n, ast.For)]
+    assigns = [n for n in outer.body if isinstance(n, ast.Assign)]
+    if len(inner) != 1 or len(inner) + len(assigns) != len(outer.body) or inner[0].orelse \
+            or not isinstance(inner[0].iter, ast.Tuple) or u(inner[0].target) != 'name' or len(inner[0].body) != 1:
+        raise tie('MRO-outer loop body')
+    test = inner[0].body[0]
+    if not (isinstance(test, ast.If) and not test.orelse and len(test.body) == 1
+            and isinstance(test.body[0], ast.Return) and isinstance(test.test, ast.Compare)
+            and len(test.test.ops) == 1 and isinstance(test.test.ops[0], ast.In) and u(test.test.left) == 'name'):
+        raise tie('MRO-outer decision')
+    d = u(test.test.comparators[0])
+    # the dictionary asked must be the one of the class of this iteration
+    src_of_d = {u(a.targets[0]): a.value for a in assigns if len(a.targets) == 1}
+    dict_expr = src_of_d.get(d)
+    ok = d in ('%s.__dict__' % klass, 'vars(%s)' % klass) or (
+        dict_expr is not None and any(isinstance(n, ast.Name) and n.id == klass for n in ast.walk(dict_expr)))
+    ret = test.body[0].value
+    if not ok or not (isinstance(ret, ast.Compare) and u(ret.left) == 'type(%s[name])' % d):
+        raise tie('MRO-outer: which dictionary / entry decides')
+    return inner[0].iter, ret, True
+
+
+# values of the unchanged source: used for the constants that can no longer be extracted when the
+# source lost its expected shape, so that the Lean side still builds (against the model of the
+# unchanged code) and the correspondence streams / the failing-input search can run.  The tie is reported.
+EXPECTED = [
+    ('allowedGetitemTypes', 'List String', lean_list(['str', 'list', 'tuple', 'bytes', 'bytearray', 'dict'])),
+    ('allowedDescriptorAccess', 'List String',
+     lean_list(['function', 'getset_descriptor', 'member_descriptor', 'method_descriptor', 'wrapper_descriptor',
+                'classmethod_descriptor', 'staticmethod', 'classmethod'])),
+    ('getitemRefuses (safe typeAllowed : Bool)', 'Bool', '(safe && !typeAllowed)'),
+    ('iterListRefuses (typeAllowed : Bool)', 'Bool', '!typeAllowed'),
+    ('mixedGetitemUsesCompiled (typeAllowed : Bool)', 'Bool', 'typeAllowed'),
+    ('isDescriptorCond (isGet typeAllowed : Bool)', 'Bool', '(isGet && !typeAllowed)'),
+    ('getAbsentCond (checkHas has : Bool)', 'Bool', '(checkHas && !has)'),
+    ('getEmptyCond (isDescr has allowUnsafe : Bool)', 'Bool', '((isDescr || !has) && !allowUnsafe)'),
+    ('getNotInDirCond (isInstance inDir : Bool)', 'Bool', '(isInstance && !inDir)'),
+    ('boolRefuses (safe builtinBool : Bool)', 'Bool', '(safe && !builtinBool)'),
+    ('boolLookupOrder', 'List String', lean_list(['__bool__', '__len__'])),
+    ('builtinMethodTypes', 'List String', lean_list(['wrapper_descriptor'])),
+    ('boolWalkMroOuter', 'Bool', 'false'),
+    ('allowUnsafeDefault', 'Bool', 'true'),
+]
+
+
 def generate(repo, g):
+    import os
+    from translator.extract import GEN_DIR, write_if_changed
+    defined = set()
+    orig_define = g.define
+
+    def define(name, typ, value, source):
+        defined.add(name)
+        orig_define(name, typ, value, source)
+    g.define = define
+    try:
+        _generate(repo, g)
+    except TieBroken:
+        for name, typ, value in EXPECTED:
+            if name not in defined:
+                orig_define(name, typ, value, 'FALLBACK (source shape not recognised): value of the unchanged code')
+        write_if_changed(os.path.join(GEN_DIR, g.pid + '.lean'), g.text())
+        raise
+    finally:
+        g.define = orig_define
+
+
+def _generate(repo, g):
     access = Src(repo, 'jedi/inference/compiled/access.py')
     static = Src(repo, 'jedi/inference/compiled/getattr_static.py')
     value = Src(repo, 'jedi/inference/compiled/value.py')
@@ -318,23 +415,19 @@ def generate(repo, g):
             ['not self.inference_state.allow_unsafe_executions']:
         raise TieBroken('value.py: CompiledValue.py__bool__ does not pass safe=not allow_unsafe_executions',
                         u(fn))
-    # _has_builtin_bool: for name in (<names>): method = static lookup; if found: return type(method) is <T>
+    # _has_builtin_bool: two loop nestings are understood (everything else: TieBroken)
+    #   names outer:  for name in (<names>): method = lookup_special_method_static(obj, name, _sentinel)
+    #                     if method is not _sentinel: return type(method) is <T>
+    #   MRO outer:    for klass in <mro of type(obj)>: [d = <dict of klass>]
+    #                     for name in (<names>): if name in d: return type(d[name]) is <T>
+    # followed by `return True`; the nesting is a constant of the model (Cfg.boolWalkMroOuter)
     fn = access.find('_has_builtin_bool')
-    body = code_body(fn)
-    ok = len(body) == 2 and isinstance(body[0], ast.For) and u(body[0].target) == 'name' \
-        and isinstance(body[0].iter, ast.Tuple) and not body[0].orelse and len(body[0].body) == 2 \
-        and u(body[0].body[0]) == 'method = lookup_special_method_static(obj, name, _sentinel)' \
-        and isinstance(body[0].body[1], ast.If) and u(body[0].body[1].test) == 'method is not _sentinel' \
-        and len(body[0].body[1].body) == 1 and isinstance(body[0].body[1].body[0], ast.Return) \
-        and not body[0].body[1].orelse and u(body[1]) == 'return True'
-    if not ok:
-        raise TieBroken('access.py: _has_builtin_bool shape changed', u(fn))
+    names_tuple, ret, mro_outer = has_builtin_bool_shape(fn)
     try:
-        order = [ast.literal_eval(e) for e in body[0].iter.elts]
+        order = [ast.literal_eval(e) for e in names_tuple.elts]
     except ValueError:
-        raise TieBroken('access.py: _has_builtin_bool names are not literals', u(body[0].iter))
-    ret = body[0].body[1].body[0].value
-    if not (isinstance(ret, ast.Compare) and len(ret.ops) == 1 and u(ret.left) == 'type(method)'):
+        raise TieBroken('access.py: _has_builtin_bool names are not literals', u(names_tuple))
+    if not (isinstance(ret, ast.Compare) and len(ret.ops) == 1):
         raise TieBroken('access.py: _has_builtin_bool does not decide by type(method)', u(ret))
     if isinstance(ret.ops[0], ast.Is):
         accepted = [ret.comparators[0]]
@@ -353,6 +446,7 @@ def generate(repo, g):
     g.define('boolLookupOrder', 'List String', lean_list(order), 'access.py:_has_builtin_bool names')
     g.define('builtinMethodTypes', 'List String', lean_list(acc),
              'access.py:_has_builtin_bool `type(method) is ...`')
+    g.define('boolWalkMroOuter', 'Bool', lean_bool(mro_outer), 'access.py:_has_builtin_bool loop nesting')
 
     # --- settings
     g.define('allowUnsafeDefault', 'Bool', lean_bool(settings.const('allow_unsafe_interpreter_executions')),
